@@ -9,10 +9,17 @@ LEAN_MODULES = ['Proofs.C12']
 REQUIRED = ['C12.segs_partition', 'C12.segs_nonempty', 'C12.segs_no_internal_wrap',
             'C12.segs_boundaries_are_wraps', 'C12.labels_sequential', 'C12.cv_length',
             'C12.cv_values', 'C12.cv_all_cover', 'C12.cv_no_wrap_none', 'C12.cv_label_block',
-            'C12.code_model_refines', 'C12.code_model_all_cover', 'C12.code_model_no_wrap']
-TRUSTED = ['wrap_phase (x % 2pi) is an oracle: phases above 2pi are wrapped by the real emd.utils.wrap_phase before they reach the model',
+            'C12.code_model_refines', 'C12.code_model_all_cover', 'C12.code_model_no_wrap',
+            'C12.code_model_boundaries', 'C12.code_model_slices_nonempty', 'C12.code_model_tests_only_slices',
+            'C12.code_model_never_tests_empty', 'C12.is_good_never_raises', 'C12.getCycleVector_all_cover']
+TRUSTED = ['wrap_phase (x % 2pi) is an oracle: the branch `if phase.max() > 2*pi: phase = wrap_phase(phase)` of get_cycle_vector is not modelled; '
+           'phases above 2pi are wrapped by the real emd.utils.wrap_phase before they reach the model, and no theorem (in particular not the '
+           '"never fails" theorems C12.code_model_slices_nonempty / C12.is_good_never_raises) speaks about that branch',
            'float subtraction in |diff(phase)| > phase_step is compared with exact subtraction; cases within 1e-9 of the threshold are skipped and counted']
-ASSUMPTIONS = ['multi-column input is processed column by column (checked: each column is compared with the model separately)']
+ASSUMPTIONS = ['multi-column input is processed column by column (checked: each column is compared with the model separately)',
+               'masks are Boolean vectors, one column (the model type is List Bool); integer-typed masks are outside the documented type and '
+               'outside the model (the code evaluates any(~mask[a:b]): ~1 = -2 is truthy, so a 0/1 integer mask vetoes every cycle; '
+               'a multi-column mask makes any() raise ValueError)']
 RULE = ('exhaustive: every phase sequence of length <= L over the 5-value alphabet %s x return_good in {0,1} '
         '(L=6 quick, 8 thorough); random: synthetic wrapped phases with variable, noisy, occasionally reversing '
         'frequency, 1-3 columns, 4 phase_step values. A case is non-trivial when its series contains at least one wrap; '
